@@ -103,10 +103,10 @@ STREAMS = {
     "C09": [("recover", 36, 400), ("multi", 8, 100), ("earlydt", 8, 80)],
     "C10": [("multi", 20, 200), ("recover", 10, 100), ("rebuild", 10, 100), ("earlydt", 8, 80)],
     "C11": [("multi", 26, 300), ("rebuild", 8, 100), ("finishing", 8, 80)],
-    "C20": [("shocked", 10, 100), ("shortage", 6, 80), ("crash", 8, 80), ("multi", 6, 80), ("eventfree", 4, 60), ("excess", 6, 40),
-            ("earlydt", 6, 60), ("finishing", 4, 40), ("blackout", 6, 60), ("starve", 6, 40), ("sudden", 4, 40)],
+    "C20": [("shocked", 10, 100), ("shortage", 6, 80), ("crash", 8, 80), ("multi", 6, 80), ("eventfree", 4, 60), ("excess", 8, 40),
+            ("earlydt", 8, 60), ("finishing", 4, 40), ("blackout", 6, 60), ("starve", 6, 40), ("sudden", 4, 40), ("fastrebuild", 5, 40)],
     "C01": [("eventfree", 40, 400)],
-    "C08": [("rebuild", 26, 300), ("multi", 10, 100), ("earlydt", 8, 80), ("finishing", 6, 60)],
+    "C08": [("rebuild", 26, 300), ("multi", 10, 100), ("earlydt", 8, 80), ("finishing", 6, 60), ("fastrebuild", 4, 40)],
     "C13": [("units", 24, 200)],
     "C18": [("shocked", 12, 120), ("shortage", 6, 60), ("eventfree", 6, 60)],
     "C03": [("shortage", 18, 300), ("shocked", 12, 200), ("multi", 8, 80), ("finishing", 8, 80)],
